@@ -607,8 +607,10 @@ def rule_flush_all(chk, prog, tier):
             def runner(it):
                 objs = []
                 nxt = None
+                w = World(prog, it=it, target='x86_64-sysv')
                 for k in reversed(range(n)):
                     o = Obj('decl%d' % k, 'heap'); o.f[('defined',)] = flags[k]; o.f[('next',)] = nxt; o.idx = k
+                    o.f[('type',)] = w.t('int'); o.f[('linkage',)] = ev(prog, 'LINKEXTERN')
                     nxt = Ptr(o, ()); objs.append(o)
                 g = it.gobj('tentativedefns', 'decl.c')
                 g.f[()] = nxt
@@ -624,6 +626,27 @@ def rule_flush_all(chk, prog, tier):
             want = [k for k in range(n) if not flags[k]]
             r.instance(sorted(got) == want and all(x is None for x in inits), 'flush:%s' % ''.join('D' if f else 't' for f in flags) or 'flush:empty', 'decl.c:%s' % fn.get('line'),
                        'tentative list (t = still tentative, D = defined meanwhile) %s: defines entries %s, must define %s with no initializer' % (''.join('D' if f else 't' for f in flags), got, want))
+    # an array that is still of unknown size at the end of the unit: one element if it has external linkage (6.9.2p5), a constraint violation otherwise (6.9.2p3)
+    for link in ('LINKEXTERN', 'LINKINTERN'):
+        for el, esz in (('int', 4), ('long', 8), ('char', 1)):
+            def runner(it):
+                w = World(prog, it=it, target='x86_64-sysv')
+                t = it.call('mkarraytype', [w.t(el), 0, 0])
+                o = Obj('decl', 'heap'); o.f.update({('defined',): 0, ('next',): None, ('type',): t, ('linkage',): ev(prog, link), ('name',): Ptr(it.mkstr(list(b'a'), 'a'), (0,))})
+                it.gobj('tentativedefns', 'decl.c').f[()] = Ptr(o, ())
+                def defineobj(i2, a, e):
+                    ty = i2.load(a[0].obj, ('type',))
+                    if i2.load(ty.obj, ('incomplete',)): raise Terminal('error', 'object has incomplete type')      # what the real defineobj() does
+                    i2.event('define', i2.load(ty.obj, ('size',))); return None
+                it.models['defineobj'] = defineobj
+                it.call(fn, [])
+                return [e_[1] for e_ in it.events if e_[0] == 'define']
+            runs = explore(prog, runner, {}, max_runs=4, on_unsupported='keep')
+            key = 'flush:%s %s a[]' % ('extern-linkage' if link == 'LINKEXTERN' else 'static', el)
+            if len(runs) != 1 or runs[0].outcome == 'unsupported':
+                raise AnalysisBroken('%s: %s' % (key, [(x.outcome, x.detail) for x in runs][:2]))
+            if link == 'LINKEXTERN': r.instance(runs[0].outcome == 'return' and runs[0].value == [esz], key, 'decl.c:%s' % fn.get('line'), 'must be defined with one element (%d bytes); cproc: %s %s' % (esz, runs[0].outcome, runs[0].value if runs[0].outcome == 'return' else runs[0].detail))
+            else: r.instance(runs[0].outcome == 'terminal:error', key, 'decl.c:%s' % fn.get('line'), 'must be diagnosed (6.9.2p3); cproc: %s' % runs[0].outcome)
     r.exhaustive = True
 
 
